@@ -1007,6 +1007,15 @@ func c03schema(t reflect.Type) string {
 	case reflect.Struct:
 		var fs []string
 		for i := 0; i < t.NumField(); i++ {
+			if f := t.Field(i); f.Anonymous && f.Type.Kind() == reflect.Struct {
+				// an embedded struct: its fields are spliced in, in place (field.go innerFieldIndexes;
+				// theorem c03_field_numbers_are_positions)
+				in := c03schema(f.Type)
+				if in != "m()" {
+					fs = append(fs, in[2:len(in)-1])
+				}
+				continue
+			}
 			fs = append(fs, c03schema(t.Field(i).Type))
 		}
 		return "m(" + strings.Join(fs, ",") + ")"
@@ -1073,6 +1082,13 @@ func c03pbShow(v reflect.Value, lossless *bool) string {
 	case reflect.Struct:
 		var l []string
 		for i := 0; i < v.NumField(); i++ {
+			if f := v.Type().Field(i); f.Anonymous && f.Type.Kind() == reflect.Struct {
+				in := c03pbShow(v.Field(i), lossless)
+				if in != "()" {
+					l = append(l, in[1:len(in)-1])
+				}
+				continue
+			}
 			l = append(l, c03pbShow(v.Field(i), lossless))
 		}
 		return "(" + strings.Join(l, ",") + ")"
